@@ -456,6 +456,10 @@ def _clone_ensemble(p):
         "y-basis": [[s, 1j * s], [s, -1j * s]],
         "bb84-half": [[1, 0], [s, s]],
     }
+    if name and name.endswith("-typed"):
+        # the ensemble as typed in by hand: [1, 0] and [0, 1] are integer arrays (int64), the real superpositions float64, the rest complex128
+        vecs = [np.array(v) for v in named[name[: -len("-typed")]]]
+        return vecs, [1.0 / len(vecs)] * len(vecs)
     if name:
         vecs = [np.array(v, dtype=complex if np.iscomplexobj(np.array(v)) else float) for v in named[name]]
         probs = [1.0 / len(vecs)] * len(vecs)
@@ -543,7 +547,7 @@ def clone_closed(p):
     from vt.contract import Violation
 
     got, vecs, probs, reps = _clone_call(p, bool(p.get("strategy")))
-    exp = {"wiesner": 0.75, "six-state": 2.0 / 3.0, "single": 1.0, "orthogonal": 1.0, "y-basis": 1.0}[p["name"]] ** reps
+    exp = {"wiesner": 0.75, "six-state": 2.0 / 3.0, "single": 1.0, "orthogonal": 1.0, "y-basis": 1.0}[p["name"].replace("-typed", "")] ** reps
     if abs(got - exp) > _tolr(reps):
         raise Violation("optimal_clone(%s, reps=%d, strategy=%s) = %.6f, closed form %.6f" % (p["name"], reps, bool(p.get("strategy")), got, exp))
 
@@ -700,6 +704,14 @@ def cases(tier, seed):
                     add("clone.closed", dict(par, strategy=False), ic, name != "single")
                     if reps == 1:
                         add("clone.closed", dict(par, strategy=True), ic, name != "single")
+    for name in ("six-state-typed", "wiesner-typed", "orthogonal-typed"):
+        for form in ("column", "1d", "density"):
+            par = dict(name=name, form=form, reps=1)
+            ic = "clone/mixed-dtype-list/%s/reps=1" % form
+            for cl in clone_bounds:
+                add(cl, dict(par), ic)
+            add("clone.closed", dict(par, strategy=False), ic)
+            add("clone.closed", dict(par, strategy=True), ic)
     nc = 80 if thorough else 8
     for cplx in (False, True):
         for i in range(nc):
